@@ -94,8 +94,10 @@ tl::expected<url_pattern<regex_provider>, errors> parse_url_pattern_impl(
   // TODO: Optimization opportunity.
   if (scheme::is_special(*processed_init->protocol)) {
     std::string_view port = processed_init->port.value();
-    if (std::to_string(scheme::get_special_port(*processed_init->protocol)) ==
-        port) {
+    // "file" is special but has no default port (get_special_port gives 0).
+    const uint16_t default_port =
+        scheme::get_special_port(*processed_init->protocol);
+    if (default_port != 0 && std::to_string(default_port) == port) {
       processed_init->port->clear();
     }
   }
